@@ -48,3 +48,16 @@ Example C34_nonvacuous :
              c_func := [111;117;116]; c_expect_func := false; c_last_flow := 9%Z; c_perr := false;
              c_cmds := [[103]; [101;116]]; c_subshell := false; c_redirect := false |} = false.
 Proof. vm_compute. repeat split. Qed.
+
+(* Known finding 1 (KNOWN_FINDINGS.txt, C34 id=1): the faithful model does NOT meet
+   the property for `a = 5 | out ` — the model (like the code) says safe, while the
+   block parser's tree for `a = 5 ` is one expression statement (an assignment). *)
+Theorem C34_expression_statement_refuted :
+  exists c, agree c = true /\ spec_ok c = false /\ classify c = 1.
+Proof.
+  exists {| c_src := [97;32;61;32;53;32;124;32;111;117;116;32]; c_unsafe := false;
+            c_func := [111;117;116]; c_expect_func := false; c_last_flow := 6%Z; c_perr := false;
+            c_cmds := [[101;120;112;114]]; c_subshell := false; c_redirect := false |}.
+  vm_compute. repeat split.
+Qed.
+Print Assumptions C34_expression_statement_refuted.
